@@ -125,7 +125,11 @@ std::vector<BitItem> BitItems(const POp &op, bool bits_only, bool single_bit_api
   const uint64_t count = op.a;
   for (uint64_t i = 0; i < count; ++i) {
     BitItem it;
-    const bool one = r.Below(256) < static_cast<uint64_t>(op.b);
+    bool one = r.Below(256) < static_cast<uint64_t>(op.b);
+    // Run-structured streams: a long run of one value, then the other (what
+    // drives adaptive probabilities into their clamps).
+    if (op.b == 257) one = i + 8 >= count ? r.Chance(1, 2) : false;
+    if (op.b == 258) one = i + 8 >= count ? r.Chance(1, 2) : true;
     if (bits_only || (op.c == 0 && single_bit_api)) {
       it.nbits = 0;
       it.v = one;
@@ -744,9 +748,9 @@ PPlan GeneratePrimPlan(uint64_t seed, bool big) {
     } else if (pick < 90) {
       op.k = P_RANS + static_cast<int>(ro.Below(5));
       const uint64_t m = ro.Below(8);
-      op.a = m == 0 ? 0 : (m < 5 ? ro.Below(64) : ro.Below(big ? 3000 : 400));
-      static const int biases[] = {0, 1, 8, 64, 128, 192, 248, 255, 256};
-      op.b = biases[ro.Below(9)];
+      op.a = m == 0 ? 0 : (m < 5 ? ro.Below(64) : ro.Below(big || m == 7 ? 3000 : 400));
+      static const int biases[] = {0, 1, 8, 64, 128, 192, 248, 255, 256, 257, 258};
+      op.b = biases[ro.Below(11)];
       op.c = static_cast<int>(ro.Below(3));  // 0 bits, 1 mixed, 2 -> width 1.. fixed below
       if (op.c == 2) op.c = 2 + static_cast<int>(ro.Below(32));
       if (op.k == P_SYMBOLBITS && op.a > 200) op.a = 200;
